@@ -67,8 +67,12 @@ func (w *World) storeLoadCycleOf(t *rapid.T, st *ev.Stats, checkAlloc bool, i in
 	var script []SOp
 	if len(s.content) > 0 && rapid.Bool().Draw(t, "mutate") {
 		mutateAt = rapid.IntRange(1, min(len(s.content), 6)).Draw(t, "mutateat")
-		if rapid.IntRange(0, 2).Draw(t, "freerunning") == 0 {
-			mutateAt = -1 // free-running mutator goroutine instead of the callback hand-over
+		// free-running mutator goroutine instead of the callback hand-over. Only with delta interleaving: there
+		// StoreToDisk gives its reference up before the scan (the model is at worst ahead of the instance and
+		// settle() waits for it); without it the reference is released when StoreToDisk returns, possibly
+		// while the script is still running, and the model cannot know when.
+		if w.cfg.Delta && rapid.IntRange(0, 1).Draw(t, "freerunning") == 0 {
+			mutateAt = -1
 		}
 		script = w.drawScript(t, rapid.IntRange(1, 12).Draw(t, "scriptlen"))
 	}
